@@ -714,7 +714,12 @@ func (g *c07Gen) allocOp(pod string) c07Op {
 			o.Reqs[t2] = g.request(t2)
 		}
 	}
+	ts := make([]string, 0, len(o.Reqs))
 	for t := range o.Reqs {
+		ts = append(ts, t)
+	}
+	sort.Strings(ts) // no map-order dependence in how the RNG is consumed
+	for _, t := range ts {
 		if !(g.topo && t == "gpu") && g.rng.Intn(5) == 0 { // the topology-scoped GPU path takes its device restriction from the filtered nodeDevice only
 			o.Required[t] = g.subset(g.nminor)
 		}
@@ -949,7 +954,7 @@ func TestVerifC07(t *testing.T) {
 	if vu.ReplayPath() != "" {
 		return
 	}
-	n, length := 150, 40
+	n, length := 300, 40
 	if vu.Thorough() {
 		n, length = 3000, 50
 	}
